@@ -313,7 +313,11 @@ def normalize(scn, raw):
         elif n == "exec.call":
             out.append({"e": "ExecCall", "x": "x%d" % e["call"]})
         elif n == "x.start":
-            out.append({"e": "XStart", "x": "x%d" % e["call"], "tidc": tidc(e), "loop": loopn(e), "argsok": bool(e["argsok"])})
+            if e.get("callonly"):
+                # the payload failed in its bare call: no coroutine, hence no place to check
+                out.append({"e": "XStart", "x": "x%d" % e["call"], "tidc": {"asyncio": "main", "trio": "trio"}.get(e["flavour"], "other"), "loop": 1 if e["flavour"] in ("asyncio", "trio") else 0, "argsok": bool(e["argsok"])})
+            else:
+                out.append({"e": "XStart", "x": "x%d" % e["call"], "tidc": tidc(e), "loop": loopn(e), "argsok": bool(e["argsok"])})
         elif n == "x.end":
             out.append({"e": "XEnd", "x": "x%d" % e["call"]})
         elif n == "exec.ret":
